@@ -9,16 +9,16 @@
        The check evaluates the checker inside Coq on the set of covers
        returned by the real cover_enum.minimize.
    (2) Model of cover_enum.minimize (L5Cover/CoverEnum.v) AS REPAIRED by
-       fixes/F2.patch: [C10_enum_exact], for ALL instances and ALL pick
+       fixes/F2.patch and fixes/F17.patch: [C10_enum_exact], for ALL instances and ALL pick
        functions, whenever the model returns a set of covers it is exactly
        the set of all minimum covers by primes (exhaustive branch and bound,
        reduction steps, the two enumerations); that the model does return
        (no assertion of the code fails, the recursion ends) is proved on the
        finite domains of the property's quantifier by computation
        ([_bounded]) and stated for all instances with a non-empty f as
-       [C10_total] (NOT proved; on the level of covering problems it is
-       refuted for the present code, [C10_refuted_total_xy], finding F17);
-       [C10_full] = [C10_total] + exactness.
+       [C10_total] (NOT proved); [C10_full] = [C10_total] + exactness.  For
+       the code before fixes/F17.patch totality is refuted on the level of
+       covering problems ([C10_refuted_total_xy], finding F17).
        For f = FALSE the code fails an assertion ([C10_refuted_empty_f];
        the library requires f to be non-empty).
    (3) Finding F2 (unrepaired code): Context.pick_iter / Context.count are
@@ -32,7 +32,7 @@ From Omega Require Import L5Cover.Boxes L5Cover.BoxesProofs L5Cover.MinCover
   L5Cover.MinCoverBounded L5Cover.MinCoverBounded4 L5Cover.CoverEnumBounded4
   L5Cover.CoverEnumOld L5Cover.CoverEnumRefuted L5Cover.CyclicCoreOpt
   L5Cover.CoverEnumLemmas L5Cover.CoverEnumStep L5Cover.CoverEnumExact
-  L5Cover.MinCoverTotal L5Cover.CoverEnumRefutedTotal.
+  L5Cover.MinCoverTotal L5Cover.CoverEnumOldLeaf L5Cover.CoverEnumRefutedTotal.
 Open Scope Z_scope.
 
 (* what C10 demands of an enumeration procedure: it returns (no error) a set
@@ -141,10 +141,8 @@ Proof. exact enum_xy_exact. Qed.
 (* the exhaustive branch and bound with the reduction steps: a call on the
    node (X, Y) with path cost pc and upper bound ub returns duplicate-free
    covers, leaves the upper bound unchanged or at least the total cost of an
-   actual cover of the node (so the unconditional assignment
-   bab.upper_bound = branch_lb at a leaf of _traverse_exhaustive only weakens
-   pruning), and finds every minimum cover of the node whose total cost is
-   within the upper bound *)
+   actual cover of the node, and finds every minimum cover of the node whose
+   total cost is within the upper bound *)
 Theorem C10_ccfr_invariants : forall rs pick,
   (forall s b, pick s = Some b -> In b s) ->
   forall fuel X Y pc ub F u,
@@ -182,28 +180,36 @@ Proof.
   exists R. split; [exact HR | apply (enum_exact rs pick f care R Hp HR)].
 Qed.
 
-(* finding F17: on a feasible covering problem (X = the unit vectors of 15
-   two-valued variables, Y = 15 cubes, an antichain; cover.minimize's model
-   returns 6 columns) the model of cover_enum.minimize stops at the
-   assertion `k == k_` of _enumerate_mincovers_unfloor for a priority pick:
-   a node inside a sub-optimal branch returns covers that are not minimal for
-   that node (its left branch is pruned, its right branch ends in a leaf more
-   expensive than the upper bound, which _traverse_exhaustive accepts), and
-   lifting such a cover is not injective.  So totality fails on the level of
-   covering problems; the real code raises the AssertionError on coordinate
-   permutations of this instance *)
+(* regression for finding F17 (repaired by fixes/F17.patch): with the
+   unrepaired leaf of cover_enum._traverse_exhaustive (CoverEnumOldLeaf.v: a
+   leaf is accepted also when it is more expensive than bab.upper_bound) the
+   model stops at the assertion `k == k_` of _enumerate_mincovers_unfloor on
+   a feasible covering problem (X = the unit vectors of 15 two-valued
+   variables, Y = 15 cubes, an antichain; cover.minimize's model returns 6
+   columns) for a priority pick: a node inside a sub-optimal branch returns
+   covers that are not minimal for that node (its left branch is pruned, its
+   right branch ends in a leaf more expensive than the upper bound), and
+   lifting such a cover is not injective.  The real unrepaired code raised
+   the AssertionError on coordinate permutations of this instance
+   (fixes/F17_enum_assert_*.json).  The repaired model returns the 27 minimum
+   covers *)
 Example C10_refuted_total_xy :
   (forall s b, e_pick s = Some b -> In b s) /\
   (forall s, e_pick s = None -> s = []) /\
   feasible e_rs e_X e_Y /\ antichain e_Y /\ e_X <> [] /\
   (exists K, minimize_xy e_rs e_pick e_X e_Y = Some K /\ length K = 6%nat) /\
-  enum_xy e_rs e_pick e_X e_Y = inr EAssert.
+  enum_xy_oldleaf e_rs e_pick e_X e_Y = inr EAssert.
 Proof.
   destruct e_feasible as [A [B C]].
   split; [exact e_pick_ok|]. split; [exact e_pick_total|].
   split; [exact A|]. split; [exact B|]. split; [exact C|].
   split; [exact e_minimize_xy_6 | exact e_enum_xy_asserts].
 Qed.
+
+Example C10_repaired_leaf_witness :
+  exists R, enum_xy e_rs e_pick e_X e_Y = inl R /\ length R = 27%nat /\
+            forallb (fun K => Nat.eqb (length K) 6) R = true.
+Proof. exact e_enum_xy_repaired. Qed.
 
 (* without the precondition the statement is false: for f = FALSE the model
    (like the code) stops at an assertion although the set of minimum covers
